@@ -12,17 +12,20 @@ import (
 	"net/http"
 	"net/http/httptest"
 	"regexp"
+	"runtime"
 	"runtime/pprof"
 	"sort"
 	"strings"
 	"sync"
 	"syscall"
 	"time"
+	"unsafe"
 
 	"github.com/sasha-s/go-deadlock"
 
 	"github.com/milvus-io/milvus/pkg/mq/msgstream"
 
+	coreapi "github.com/zilliztech/milvus-cdc/core/api"
 	"github.com/zilliztech/milvus-cdc/core/config"
 	corelog "github.com/zilliztech/milvus-cdc/core/log"
 	coremeta "github.com/zilliztech/milvus-cdc/core/meta"
@@ -71,6 +74,9 @@ type Parts struct {
 	RPC    *Dispatch // used by the channel reader (replicate channel)
 	MetaOp *MetaOp
 	Data   *DataHandler
+	CM     coreapi.ChannelManager // the real replicateChannelManager of this incarnation
+
+	errSent bool // an error event was handed to this incarnation's event loop (the loop ends after one)
 }
 
 // Env is the environment of one plan (one MetaCDC incarnation at a time).
@@ -138,11 +144,96 @@ func (env *Env) newParts(info *meta.TaskInfo) (*server.VerifEntityParts, error) 
 	w := cdcwriter.NewChannelWriter(p.Data, replicateMeta,
 		config.WriterConfig{MessageBufferSize: env.Cfg.SourceConfig.ReadChanLen, Retry: env.Cfg.Retry},
 		p.MetaOp.GetAllDroppedObj(), "milvus")
+	p.CM = cm
 	env.mu.Lock()
 	env.parts = append(env.parts, p)
 	env.mu.Unlock()
 	return &server.VerifEntityParts{ChannelManager: cm, TargetClient: target, MetaOp: p.MetaOp, Writer: w,
 		MQDispatcher: p.RPC, MQTTDispatcher: p.TT}, nil
+}
+
+// ---------------------------------------------------------------- error events of the reader machinery
+
+// PushError hands a ReplicateError event for taskID to the live entity of the target uri, the way the reader
+// machinery does (replicateChannelHandler.sendErrEvent / replicateChannelManager.forwardMsg write it into the
+// manager's event channel, MetaCDC.startReplicateAPIEvent consumes it).  The manager exposes the channel
+// receive-only; channel direction is a compile-time property only, so the same channel value is used for
+// sending.  It returns false (nothing sent) when the target has no live entity, when this entity's event
+// loop was already given an error event (the loop ends after one), or when the channel is full.
+func (env *Env) PushError(uri, taskID string) bool {
+	snap := env.CDC.VerifSnapshot()
+	if _, live := snap.EntityRef[uri]; !live {
+		return false
+	}
+	env.mu.Lock()
+	var p *Parts
+	for _, q := range env.parts {
+		if q.Target == uri {
+			p = q // the last incarnation made for the target is the live one
+		}
+	}
+	env.mu.Unlock()
+	if p == nil || p.CM == nil || p.errSent {
+		return false
+	}
+	recv := p.CM.GetEventChan()
+	send := *(*chan<- *coreapi.ReplicateAPIEvent)(unsafe.Pointer(&recv))
+	select {
+	case send <- &coreapi.ReplicateAPIEvent{EventType: coreapi.ReplicateError, TaskID: taskID,
+		Error: fmt.Errorf("injected reader failure")}:
+		p.errSent = true
+		return true
+	default:
+		return false
+	}
+}
+
+// EventsPending is the number of events waiting in the event channels of this Env's entity incarnations.
+func (env *Env) EventsPending() int {
+	env.mu.Lock()
+	defer env.mu.Unlock()
+	n := 0
+	for _, p := range env.parts {
+		if p.CM != nil {
+			n += len(p.CM.GetEventChan())
+		}
+	}
+	return n
+}
+
+// EventLoopsBusy counts the goroutines of MetaCDC.startReplicateAPIEvent's loop that are not parked in the
+// loop's own select (i.e. that have taken an event and are handling it).  One consistent goroutine dump.
+func EventLoopsBusy() int {
+	buf := make([]byte, 1<<20)
+	for {
+		n := runtime.Stack(buf, true)
+		if n < len(buf) {
+			buf = buf[:n]
+			break
+		}
+		buf = make([]byte, 2*len(buf))
+	}
+	const loop = "server.(*MetaCDC).startReplicateAPIEvent.func1"
+	busy := 0
+	for _, blk := range strings.Split(string(buf), "\n\n") {
+		lines := strings.Split(strings.TrimSpace(blk), "\n")
+		if len(lines) < 2 {
+			continue
+		}
+		inLoop := false
+		for _, ln := range lines[1:] {
+			if strings.Contains(ln, loop) && !strings.HasPrefix(ln, "created by") {
+				inLoop = true
+			}
+		}
+		if !inLoop {
+			continue
+		}
+		if !(strings.Contains(lines[0], "[select") && strings.Contains(lines[1], loop)) {
+			busy++
+		}
+	}
+	return busy
 }
 
 // ---------------------------------------------------------------- requests
